@@ -71,7 +71,7 @@ fn body(h: &Hdr, content: usize, salt: usize) -> Vec<Mb> {
                 if content == 0 {
                     blocks[5].ev = vec![ev_auto(true, 1, -2, v1)];
                 }
-                Mb::Coded { kind: Kind::Inter, dquant: 0, mvd: vec![((i as i8 + salt as i8) % 5 - 2, (i as i8) % 3 - 1)], blocks }
+                Mb::Coded { kind: Kind::Inter, dquant: 0, mvd: vec![(((i + salt) % 5) as i8 - 2, (i % 3) as i8 - 1)], blocks }
             }
         })
         .collect()
@@ -403,13 +403,47 @@ pub fn run(tier: Tier) -> Report {
             }
         }
     }
+    // larger pictures (80 macroblocks) ending in a run of T not-coded macroblocks, every T, followed
+    // by another picture in the same reader (run-length treatment of skipped macroblocks)
+    {
+        let mut n_tail = 0u64;
+        for &mode in &[Mode::Sorenson, Mode::StdCustom] {
+            let (w, h) = (160u16, 128u16);
+            let ihdr = hdr(mode, w, h, 0, 251, 0, 0);
+            let ipic = Pic { mbs: body(&ihdr, 1, 2), hdr: ihdr };
+            let init = Letter { name: "I".into(), bytes: encode_bytes(&ipic), pad: 0, pic: ipic };
+            let types: &[u8] = if mode == Mode::Sorenson { &[1, 2] } else { &[1] };
+            let mut letters = vec![];
+            for &pt in types {
+                for t in 0..=80usize {
+                    if !tier.thorough() && t > 40 && t % 4 != 0 && t < 76 {
+                        continue;
+                    }
+                    let hd = hdr(mode, w, h, pt, (t as u8).wrapping_mul(3), t % 3, 0);
+                    let mut mbs = body(&hd, 0, t);
+                    for m in mbs.iter_mut().skip(80 - t) {
+                        *m = Mb::NotCoded;
+                    }
+                    let pic = Pic { mbs, hdr: hd };
+                    let bw = encode(&pic);
+                    let pad = (8 - bw.nbits % 8) % 8;
+                    letters.push(Letter { name: format!("{}160x128 with {t} trailing not-coded macroblocks pad{pad}", ["I", "P", "D"][pt as usize]), bytes: bw.bytes, pad, pic });
+                }
+            }
+            let calls: u64 = letters.par_iter().map(|l| run_seq(&rep, mode, Some(&init), &[l, &init]) + run_seq(&rep, mode, Some(&init), &[l, l])).sum();
+            rep.add_transitions(calls);
+            rep.add_states(2 * letters.len() as u64);
+            n_tail += 2 * letters.len() as u64;
+        }
+        rep.extra("not_coded_tail_sequences", json!(n_tail));
+    }
     rep.extra("sequences", json!(nseq));
     rep.extra("letters_by_padding_bits", json!(pads));
     if pads.iter().any(|p| *p == 0) {
         rep.violation("C15/machinery-padding-coverage", format!("picture alphabet does not realise every padding length 0..7: {pads:?}"), json!({"kind": "machinery"}));
     }
     rep.set_rule(&format!(
-        "all sequences of 1..={maxlen} pictures from an alphabet of type {{I,P,D}} x 8 PEI counts (every padding length 0..7) x bodies (last macroblock coded with AC data / not coded / with MCBPC stuffing codewords) per size, from a fresh decoder and after an I picture, in Sorenson and standard mode: decoder A reads the concatenation from one reader, decoder B gets one reader per picture; A, B and the reference decoder must agree after every call and A's reader must end within 8 bits of the end; plus pictures ending in each kind of final syntax element (every TCOEF form incl. each escape width, INTRADC, COD, each MVD shape, after DQUANT, position 63) at every padding length 0..7, alone / before / after another picture; non-trivial = sequences of two or more pictures"
+        "all sequences of 1..={maxlen} pictures from an alphabet of type {{I,P,D}} x 8 PEI counts (every padding length 0..7) x bodies (last macroblock coded with AC data / not coded / with MCBPC stuffing codewords) per size, from a fresh decoder and after an I picture, in Sorenson and standard mode: decoder A reads the concatenation from one reader, decoder B gets one reader per picture; A, B and the reference decoder must agree after every call and A's reader must end within 8 bits of the end; plus pictures ending in each kind of final syntax element (every TCOEF form incl. each escape width, INTRADC, COD, each MVD shape, after DQUANT, position 63) at every padding length 0..7, alone / before / after another picture; 80-macroblock pictures ending in every number of not-coded macroblocks, followed by another picture; non-trivial = sequences of two or more pictures"
     ));
     rep.assume("pictures of one sequence share a size (prediction across sizes is outside the valid-stream premise)");
     rep
